@@ -399,7 +399,7 @@ func naturalLoops(fn *ssa.Function) []*natLoop {
 // RuleSuffixOps (C06): the suffix rewrite uses suffix semantics, skips
 // directives and blank lines, and every exclude file is processed.
 func (c *Ctx) RuleSuffixOps() *Result {
-	res := &Result{Rule: "SUFFIX-OPS", MinInst: 3}
+	res := &Result{Rule: "SUFFIX-OPS", MinInst: 1}
 	lm := c.Loud()
 	for _, fn := range c.P.RepoFns {
 		if load.ShortPkg(load.FnPkgPath(fn)) != "regex/parser" {
@@ -457,8 +457,34 @@ func (c *Ctx) RuleSuffixOps() *Result {
 				want1, _ := rx.SearchPattern("directive or comment line", `^##!`)
 				want2, _ := rx.SearchPattern("blank line", `^\s*$`)
 				why := "the suffix rewrite is not guarded by a pattern test of the line"
+				handWritten := ""
 				mkPred := func(ent ssa.Value, covered *bool) func(cond ssa.Value, val bool) bool {
 					return func(cond ssa.Value, val bool) bool {
+						// the skip test written by hand: a helper func(line) bool that is a combination of regular tests
+						if hc, isCall := cond.(*ssa.Call); isCall && !val && len(hc.Call.Args) == 1 && sameEntry(hc.Call.Args[0], ent) {
+							if hf := staticFn(&hc.Call); hf != nil && c.P.IsRepoFn(hf) {
+								tp, whyNot := c.textPredicateOf(hf)
+								if tp == nil {
+									handWritten = "the lines the suffix rewrite leaves alone are chosen by " + load.FnName(hf) + ", which the rule cannot turn into a language: " + whyNot
+									return false
+								}
+								n := len(tp.atoms)
+								for _, w := range []*rx.Lang{want1, want2} {
+									q := &rx.Query{Langs: append([]*rx.Lang{w}, tp.atoms...), Accept: func(m []bool) bool { return m[0] && !tp.eval(m[1:]) }}
+									if r, err := q.Run(); err != nil || r.Found {
+										why = fmt.Sprintf("%s does not answer true for every %s (e.g. %q): such lines get their endings rewritten like entries", load.FnName(hf), w.Name, r.Witness)
+										return false
+									}
+								}
+								q := &rx.Query{Langs: append(append([]*rx.Lang{}, tp.atoms...), want1, want2), Excluded: func(r rune) bool { return r == '\n' }, Accept: func(m []bool) bool { return tp.eval(m[:n]) && !m[n] && !m[n+1] }}
+								if r, err := q.Run(); err != nil || r.Found {
+									why = fmt.Sprintf("%s also answers true for lines that are entries (e.g. %q): their endings are never rewritten", load.FnName(hf), r.Witness)
+									return false
+								}
+								*covered = true
+								return true
+							}
+						}
 						_, m, recv, subj, ok := regexpCall(asInstr(cond))
 						if !ok || !(m == "MatchString" || m == "Match") || val {
 							return false
@@ -530,6 +556,8 @@ func (c *Ctx) RuleSuffixOps() *Result {
 				}
 				if guarded(call, entry, 0) {
 					res.ok(key, c.P.InstrPos(call), "only reached when the line matches neither ^##! nor ^\\s*$ (language inclusion checked on the skip pattern)")
+				} else if handWritten != "" {
+					res.undecided(key, c.P.InstrPos(call), handWritten)
 				} else {
 					res.bad(key, c.P.InstrPos(call), why)
 				}
@@ -1354,6 +1382,9 @@ func (c *Ctx) RuleProcStart() *Result {
 					follow(x, d+1)
 				case *ssa.Slice:
 					follow(x, d+1)
+				case *ssa.Phi:
+					// the match is only tried behind a cheap test and is nil otherwise
+					follow(x, d+1)
 				case *ssa.UnOp:
 					if x.Op == token.MUL {
 						follow(x, d+1)
@@ -1598,6 +1629,27 @@ func (c *Ctx) sliceMinLen(a ssa.Value, at ssa.Instruction, in *ssa.Function, dep
 			if pat, _ := c.Rx().Resolve(recv); pat != nil && knownNonEmpty(c.factsAt(at), x.X) {
 				return int64(pat.NumCap()) + 1 - lo
 			}
+		}
+		// the match is only tried behind a cheap test: nil or the submatches, known to be non-empty here
+		if ph, ok := x.X.(*ssa.Phi); ok && knownNonEmpty(c.factsAt(at), ph) {
+			min := int64(-1)
+			for _, e := range ph.Edges {
+				if isNilConst(e) {
+					continue
+				}
+				_, _, recv, _, ok := regexpCall(asInstr(e))
+				if !ok {
+					return -1
+				}
+				pat, _ := c.Rx().Resolve(recv)
+				if pat == nil {
+					return -1
+				}
+				if l := int64(pat.NumCap()) + 1 - lo; min < 0 || l < min {
+					min = l
+				}
+			}
+			return min
 		}
 	case *ssa.Parameter:
 		pi := paramIndex(in, x)
